@@ -458,10 +458,10 @@ class LiveMedia(MediaRequestBase):
                 seg_num, first, last)
             raise err
 
-        # a number derived from $Time$ is zero-based, whereas first and
-        # last are counted from start_number
+        # in live mode a number derived from $Time$ is zero-based, whereas
+        # first and last are counted from start_number
         num = seg_num
-        if seg_time is not None:
+        if seg_time is not None and mode == 'live':
             num += representation.start_number
         if num < first or num > last:
             logging.info(
